@@ -49,6 +49,8 @@ pub enum TypeErrorEnum {
     UnusedFn(String),
     /// A top-level function calls itself recursively.
     RecursiveFnDef(String),
+    /// A struct or enum contains itself (directly or through other types).
+    RecursiveTypeDef(String),
     /// No struct or enum declaration with the specified name exists.
     UnknownStructOrEnum(String),
     /// No struct declaration with the specified name exists.
@@ -136,6 +138,9 @@ impl std::fmt::Display for TypeErrorEnum {
             )),
             TypeErrorEnum::RecursiveFnDef(name) => f.write_fmt(format_args!(
                 "Function '{name}' is declared recursively, which is not supported"
+            )),
+            TypeErrorEnum::RecursiveTypeDef(name) => f.write_fmt(format_args!(
+                "Type '{name}' contains itself, which is not supported"
             )),
             TypeErrorEnum::UnknownStructOrEnum(name) => {
                 f.write_fmt(format_args!("Unknown struct or enum '{name}'"))
@@ -539,6 +544,82 @@ impl UntypedProgram {
                 });
             }
             enum_defs.insert(enum_name.clone(), EnumDef { variants, meta });
+        }
+
+        // A struct or enum that contains itself has no finite size; nothing that follows (sizes,
+        // exhaustiveness checks, compilation) terminates on such a type:
+        fn contains_def(
+            ty: &Type,
+            target: &str,
+            structs: &HashMap<String, StructDef>,
+            enums: &HashMap<String, EnumDef>,
+            visited: &mut HashSet<String>,
+        ) -> bool {
+            match ty {
+                Type::Struct(name) | Type::Enum(name) => {
+                    if name == target {
+                        return true;
+                    }
+                    if !visited.insert(name.clone()) {
+                        return false;
+                    }
+                    let mut fields: Vec<&Type> = vec![];
+                    if let Some(struct_def) = structs.get(name) {
+                        fields.extend(struct_def.fields.iter().map(|(_, ty)| ty));
+                    }
+                    if let Some(enum_def) = enums.get(name) {
+                        for variant in enum_def.variants.iter() {
+                            if let Variant::Tuple(_, variant_fields) = variant {
+                                fields.extend(variant_fields.iter());
+                            }
+                        }
+                    }
+                    fields
+                        .into_iter()
+                        .any(|ty| contains_def(ty, target, structs, enums, visited))
+                }
+                Type::Array(elem, _)
+                | Type::ArrayConst(elem, _)
+                | Type::ArrayConstExpr(elem, _) => {
+                    contains_def(elem, target, structs, enums, visited)
+                }
+                Type::Tuple(fields) => fields
+                    .iter()
+                    .any(|ty| contains_def(ty, target, structs, enums, visited)),
+                _ => false,
+            }
+        }
+        let mut recursive_type_defs = vec![];
+        for (name, meta) in struct_defs
+            .iter()
+            .map(|(name, def)| (name, def.meta))
+            .chain(enum_defs.iter().map(|(name, def)| (name, def.meta)))
+        {
+            let mut fields: Vec<&Type> = vec![];
+            if let Some(struct_def) = struct_defs.get(name) {
+                fields.extend(struct_def.fields.iter().map(|(_, ty)| ty));
+            }
+            if let Some(enum_def) = enum_defs.get(name) {
+                for variant in enum_def.variants.iter() {
+                    if let Variant::Tuple(_, variant_fields) = variant {
+                        fields.extend(variant_fields.iter());
+                    }
+                }
+            }
+            let mut visited = HashSet::new();
+            if fields
+                .into_iter()
+                .any(|ty| contains_def(ty, name, &struct_defs, &enum_defs, &mut visited))
+            {
+                let e = TypeErrorEnum::RecursiveTypeDef(name.clone());
+                recursive_type_defs.push(Some(TypeError::new(e, meta)));
+            }
+        }
+        if !recursive_type_defs.is_empty() {
+            errors.extend(recursive_type_defs);
+            let mut errors: Vec<TypeError> = errors.into_iter().flatten().collect();
+            errors.sort();
+            return Err(errors);
         }
 
         let mut untyped_defs = Defs::new(&const_types, &struct_defs, &enum_defs);
